@@ -9,7 +9,7 @@ RULE = ("programs: three enum families covering all 15 non-deprecated derives an
         "named variants, default / default_with / transparent variants, props, messages, docs, discriminants; lifetime family), "
         "core-only payload types. Each program is compiled (direct rustc, --emit=metadata) under: (d) std baseline; (a) #![no_std] "
         "library without alloc against strum built with default-features = false; (b) strum reachable only as `--extern renamed` "
-        "with #[strum(crate = \"renamed\")], and through a nested re-export path; (c) local `mod core {}` / `mod std {}` beside the "
+        "with #[strum(crate = \"renamed\")], through a nested re-export path and through a single-identifier local `use` alias; (c) local `mod core {}` / `mod std {}` beside the "
         "enum. oracle (differential): what compiles under (d) compiles under (a), (b), (c); and (b'): without crate= the renamed "
         "build must FAIL for every trait-emitting derive (so the configuration really exposes a hard-coded ::strum). "
         "non-trivial: all; distinct = (program, configuration).")
@@ -143,7 +143,7 @@ def fam_data(r, name, lifetimes=False):
     return decorate_common(r, spec, True)
 
 
-CONFIGS = ["d_std", "a_nostd", "b_renamed", "b_nested", "c_shadow"]
+CONFIGS = ["d_std", "a_nostd", "b_renamed", "b_nested", "b_alias", "c_shadow"]
 
 
 def render(spec, cfg):
@@ -158,6 +158,11 @@ def render(spec, cfg):
         strum = "crate::reexp::strum_alias"
         s.crate_path = "crate::reexp::strum_alias"
         crate_pass = ", strum(crate = \"crate::reexp::strum_alias\")"
+    elif cfg == "b_alias":
+        # the configured path is a single identifier that is a local `use` alias, not an extern crate name
+        strum = "st"
+        s.crate_path = "st"
+        crate_pass = ", strum(crate = \"st\")"
     elif cfg == "b_nocrate":
         strum = "renamed"
     s.strum_path = strum
@@ -174,6 +179,8 @@ def head_for(cfg):
         h = "#![no_std]\n" + h
     if cfg == "b_nested":
         h += "pub mod reexp { pub use renamed as strum_alias; }\n"
+    if cfg == "b_alias":
+        h += "use renamed as st;\n"
     return h + CORE_HEAD
 
 
